@@ -928,7 +928,7 @@ fn hop_name(o: HOp) -> &'static str {
     }
 }
 
-const HDOCS: [&str; 4] = ["loose/d1.gleam", "app/src/d2.gleam", "app/src/d3.gleam", "lib/src/d4.gleam"];
+const HDOCS: [&str; 5] = ["loose/d1.gleam", "app/src/d2.gleam", "app/src/d3.gleam", "lib/src/d4.gleam", "app/test/nested/src/d5.gleam"];
 
 fn h_text(doc: usize, o: HOp) -> String {
     match o {
@@ -950,6 +950,9 @@ fn h_tree(base: &std::path::Path) {
     w("app/src/d3.gleam", "pub fn on_disk3() { 0 }\n");
     w("lib/gleam.toml", "name = \"lib\"\nversion = \"1.0.0\"\n");
     w("lib/src/d4.gleam", "pub fn on_disk4() { 0 }\n");
+    // a package nested in another one's test directory (a fixture project)
+    w("app/test/nested/gleam.toml", "name = \"nested\"\nversion = \"1.0.0\"\n");
+    w("app/test/nested/src/d5.gleam", "pub fn on_disk5() { 0 }\n");
 }
 
 /// Runs one history on a fresh server; returns the documents whose server text differs from the
@@ -1057,9 +1060,10 @@ fn h_json(h: &[(usize, HOp)]) -> serde_json::Value {
     json!(h.iter().map(|(d, o)| json!([HDOCS[*d], hop_name(*o)])).collect::<Vec<_>>())
 }
 
-/// Multi-document histories layer: every history of <= n client / watcher operations over four
+/// Multi-document histories layer: every history of <= n client / watcher operations over five
 /// documents (a free-standing file, two modules of one package, a module of a path dependency of
-/// that package; all present on disk with other contents), each on a fresh server through the
+/// that package, a module of a package nested in that package's test directory; all present on
+/// disk with other contents), each on a fresh server through the
 /// real router. After the history every document the client holds open must be analysed with the
 /// client's text. Starts the store from non-initial states: vacated and re-used slots, packages
 /// loaded by another document's didOpen, documents known from disk before they are opened.
@@ -1101,7 +1105,7 @@ fn histories_layer(rep: &mut Report, tier: Tier) {
         transitions: hists.iter().map(|h| h.len() as u64).sum(),
         executions: hists.len() as u64,
         exhaustive: true,
-        bound: format!("every history of <= {n} operations from {{open with text A, open with text B (CRLF, multi-byte), close, insert at the last line start, delete the first character, full-text change, save, watched-file changed, watched-file deleted}} x 4 documents (free-standing file, two modules of package app, a module of app's path dependency lib; all on disk with other contents), only sequences a well-behaved client can send (open when closed, edit / close / save when open); each on a fresh real Server through the router; afterwards every open document's text is read back via glas/syntaxTree"),
+        bound: format!("every history of <= {n} operations from {{open with text A, open with text B (CRLF, multi-byte), close, insert at the last line start, delete the first character, full-text change, save, watched-file changed, watched-file deleted}} x 5 documents (free-standing file, two modules of package app, a module of app's path dependency lib, a module of a package nested in app's test directory; all on disk with other contents), only sequences a well-behaved client can send (open when closed, edit / close / save when open); each on a fresh real Server through the router; afterwards every open document's text is read back via glas/syntaxTree"),
         ..Default::default()
     });
 }
